@@ -168,6 +168,20 @@ Example C01_unfixed_stale_chunk_refuted :
   Assembler.oracle witness_stale_chunk (Assembler.run witness_stale_chunk) = true.
 Proof. vm_compute. repeat split. Qed.
 
+(** Counterexample to the STRICT ownership invariant of the SendBuffer ("each byte of [0, offset)
+    is in exactly one of unsent / in flight / to retransmit / acked"), found by the seed sweep and
+    identical on the real code: after [retransmit(0..3)] the restart [retransmit_all_for_0rtt]
+    only resets [unsent]; bytes 0..3 are then both "to retransmit" and "unsent" and poll_transmit
+    hands them out twice.  The duplicate is harmless for C01 (frames stay sound, the receiver
+    de-duplicates) and the situation does not arise in Connection (0-RTT data is never declared
+    lost before the Retry / rejection that triggers the restart), so the oracle treats the restart
+    with a pending lost range as outside the valid environment; it is recorded here, not as a
+    violation. *)
+Example C01_sendbuffer_ownership_counterexample :
+  SendBuffer.run [[0; 1; 2; 3]; [1; 37]; [4; 0; 3]; [5]; [1; 30]; [1; 30]] =
+    [[0]; [0; 0; 3; 1; 1; 2; 3]; [0]; [0]; [0; 0; 3; 1; 1; 2; 3]; [0; 0; 3; 1; 1; 2; 3]].
+Proof. vm_compute. reflexivity. Qed.
+
 (* ------------------------------------------------------------------ non-vacuity *)
 Definition pat (x : Z) : Z := Assembler.w 0 x.
 Example C01_assembler_example :
